@@ -9,7 +9,10 @@
    hands a freed permit to the acquirer that has waited longest. A connection whose
    client went away before it was served is not known to be gone until its handler
    reads: it keeps its place, gets its permit in turn, and the handler (end of
-   stream at once) gives the permit straight back — it never counts as served.
+   stream at once) gives the permit straight back — it never counts as served. The
+   listener meanwhile has gone on: the handler only runs when the accept loop next
+   waits, so the listener's next connection is back in the line before that permit
+   returns (found by the mlimit profile: the model first returned the permit at once).
 
    Model/Server.v is the instance with one listener. *)
 From MC Require Import Model.Base Model.Conn Model.Server.
@@ -44,13 +47,32 @@ Fixpoint next_accept (pending backlog : list (nat * nat)) : option ((nat * nat) 
       else Some (x, t)
   end.
 
+(* the oldest connection in the backlog of listener l *)
+Fixpoint take_first (l : nat) (backlog : list (nat * nat)) : option ((nat * nat) * list (nat * nat)) :=
+  match backlog with
+  | [] => None
+  | x :: t =>
+      if Nat.eqb (fst x) l then Some (x, t)
+      else match take_first l t with
+           | Some (y, r) => Some (y, x :: r)
+           | None => None
+           end
+  end.
+
 (* one internal step; None: nothing can move *)
 Definition settle1 (s : mserver) : option mserver :=
   match ms_pending s with
   | (l, c) :: rest =>
       if 0 <? ms_permits s then
         if mem_nat c (ms_gone s)
-        then Some (mkMS (ms_permits s) (ms_active s) rest (ms_backlog s) (ms_gone s))
+        then
+          (* the listener spawns the handler and goes on accepting before the handler runs
+             (one thread, one current-thread runtime per listener): its next connection
+             queues up for a permit before this one's comes back *)
+          match take_first l (ms_backlog s) with
+          | Some (x, bl) => Some (mkMS (ms_permits s) (ms_active s) (rest ++ [x]) bl (ms_gone s))
+          | None => Some (mkMS (ms_permits s) (ms_active s) rest (ms_backlog s) (ms_gone s))
+          end
         else Some (mkMS (ms_permits s - 1) (ms_active s ++ [c]) rest (ms_backlog s) (ms_gone s))
       else
         match next_accept (ms_pending s) (ms_backlog s) with
